@@ -538,6 +538,66 @@ impl Drop for HangMonitor {
     }
 }
 
+/// Runs cases start..end in child processes of this binary (`jbv child <args…> <from> <to>`), so that an abort
+/// (allocation failure, stack overflow) or a hang in the code under test is attributed to one case instead of
+/// killing the check. Protocol on the child's stdout: `S <i>` before case i, `R <i> <text>` after it.
+/// `on_result(i, text)` is called for every finished case, `on_crash(i, why)` for a case the child died or hung in.
+pub fn run_isolated(child_args: &[String], start: usize, end: usize, per_case_timeout_s: u64, on_result: &(dyn Fn(usize, &str) + Sync), on_crash: &(dyn Fn(usize, &str) + Sync)) -> Result<(), String> {
+    use std::io::{BufRead, BufReader};
+    use std::process::{Command, Stdio};
+    let exe = std::env::current_exe().map_err(|e| e.to_string())?;
+    let mut next = start;
+    while next < end {
+        let mut args: Vec<String> = vec!["child".into()];
+        args.extend(child_args.iter().cloned());
+        args.push(next.to_string());
+        args.push(end.to_string());
+        let mut ch = Command::new(&exe).args(&args).stdout(Stdio::piped()).stderr(Stdio::null()).spawn().map_err(|e| e.to_string())?;
+        let out = ch.stdout.take().unwrap();
+        let (tx, rx) = std::sync::mpsc::channel::<String>();
+        let th = std::thread::spawn(move || {
+            for line in BufReader::new(out).lines().map_while(Result::ok) {
+                if tx.send(line).is_err() {
+                    break;
+                }
+            }
+        });
+        let mut current: Option<usize> = None;
+        let mut died: Option<&str> = None;
+        loop {
+            match rx.recv_timeout(std::time::Duration::from_secs(per_case_timeout_s)) {
+                Ok(line) => {
+                    let mut it = line.splitn(3, ' ');
+                    match (it.next(), it.next().and_then(|x| x.parse::<usize>().ok())) {
+                        (Some("S"), Some(i)) => current = Some(i),
+                        (Some("R"), Some(i)) => {
+                            current = None;
+                            next = i + 1;
+                            on_result(i, it.next().unwrap_or(""));
+                        }
+                        _ => {}
+                    }
+                }
+                Err(std::sync::mpsc::RecvTimeoutError::Timeout) => {
+                    let _ = ch.kill();
+                    died = Some("timeout");
+                    break;
+                }
+                Err(std::sync::mpsc::RecvTimeoutError::Disconnected) => break,
+            }
+        }
+        let status = ch.wait().ok();
+        let _ = th.join();
+        if let Some(i) = current {
+            on_crash(i, &format!("{} (status {:?})", died.unwrap_or("abort/kill"), status));
+            next = i + 1;
+        } else if next < end {
+            return Err(format!("child ended early at case {} (status {:?})", next, status));
+        }
+    }
+    Ok(())
+}
+
 pub struct Findings {
     open: Vec<(String, String, String)>, // (property, key, description)
 }
